@@ -239,6 +239,7 @@ type SimSource struct {
 	EOFWithData int
 	EmptyReads int
 	SlowReads  int
+	idleDone   int
 	lastEmpty  bool
 	selfChecked bool
 	toggle     bool
@@ -413,6 +414,11 @@ func (s *SimSource) serve(p []byte) (int, error) {
 			s.stuck = true
 		}
 		return 0, s.faultErr()
+	}
+	if s.chunk.EmptyRun > 0 && s.Reads > s.chunk.EmptyAfter && s.idleDone < s.chunk.EmptyRun {
+		s.idleDone++
+		s.EmptyReads++
+		return 0, nil
 	}
 	if s.chunk.Empty > 0 && s.Reads%s.chunk.Empty == 0 && !s.lastEmpty {
 		s.lastEmpty = true
